@@ -1,5 +1,5 @@
-(** C05 — proofs, part 8: the statements collected (soundness of every implemented rule), the witnesses
-    of the three known deviations, non-vacuity. *)
+(** C05 — proofs, part 8: the statements collected (soundness of every implemented rule), the witness
+    of the known deviation, the two former deviations now behaving as specified, non-vacuity. *)
 From V Require Import Base.Util Gql.Ast C05.Model C05.Spec C05.Witness
      C05.Proofs C05.Proofs2 C05.Proofs3 C05.Proofs4 C05.Proofs5 C05.Proofs6 C05.Proofs7.
 
@@ -29,7 +29,7 @@ Proof.
   - apply sound_directive_unknown; assumption.
   - apply sound_directive_misplaced; assumption.
   - apply sound_directive_repeated; assumption.
-  - apply sound_directive_args_lenient; assumption.
+  - apply sound_directive_args; assumption.
   - apply sound_directive_recursive_shallow; assumption.
 Qed.
 
@@ -38,9 +38,13 @@ Definition sound_full : Prop :=
   forall doc, check_doc doc = [] -> unique_names doc = true -> ok_app_arg_unique doc = true ->
   forall r, rule_ok r doc = true.
 
-Lemma int_range_refuted :
-  check_doc w_int_range = [] /\ unique_names w_int_range = true /\ ok_app_arg_unique w_int_range = true /\
-  ok_directive_args w_int_range = false /\ ok_directive_args_lenient w_int_range = true.
+(** since 556742c an Int literal outside the signed 32-bit range is reported *)
+Lemma int_range_rejected :
+  ok_directive_args w_int_range = false /\ check_doc w_int_range = w_int_range_errs /\ w_int_range_errs <> [].
+Proof. vm_compute. repeat split. discriminate. Qed.
+
+(** since fe470c6 an additional non-null argument with a default value is accepted *)
+Lemma extra_default_accepted : spec_valid w_extra_default = true /\ check_doc w_extra_default = [].
 Proof. vm_compute. repeat split. Qed.
 
 Lemma nested_recursion_refuted :
@@ -50,14 +54,17 @@ Proof. vm_compute. repeat split. Qed.
 
 Lemma sound_full_refuted : ~ sound_full.
 Proof.
-  intros H. destruct int_range_refuted as [H1 [H2 [H3 [H4 _]]]].
-  specialize (H w_int_range H1 H2 H3 RDirectiveArgs). change (ok_directive_args w_int_range = true) in H. congruence.
+  intros H. destruct nested_recursion_refuted as [H1 [H2 [H3 [H4 _]]]].
+  specialize (H w_nested H1 H2 H3 RDirectiveRecursive). change (ok_directive_recursive w_nested = true) in H. congruence.
 Qed.
 
-(** a schema the specification accepts and the checker rejects: additional non-null argument with a default value *)
-Lemma extra_default_refuted :
-  spec_valid w_extra_default = true /\ check_doc w_extra_default = w_extra_default_errs /\ w_extra_default_errs <> [].
-Proof. vm_compute. repeat split. discriminate. Qed.
+(** observations outside the implemented rules: an object type without fields and a union without members
+    (they parse since 530788b / 3814a72) get no diagnostic, although the specification asks for one or more
+    fields / member types *)
+Lemma empty_object_accepted : check_doc w_empty_object = [] /\ nonempty_ok w_empty_object = false /\ spec_valid w_empty_object = false.
+Proof. vm_compute. repeat split. Qed.
+Lemma empty_union_accepted : check_doc w_empty_union = [] /\ nonempty_ok w_empty_union = false /\ spec_valid w_empty_union = false.
+Proof. vm_compute. repeat split. Qed.
 
 (** non-vacuity: the hypotheses of [sound_all] hold of a document with directive applications, nested list and
     input-object literals; and a recursive directive definition is reported *)
